@@ -617,7 +617,7 @@ SPECS["C02"] = {
 def plan_c17(tier, seed):
     if tier == "quick":
         return checks("asan", 4, 2500) + checks("tsan", 4, 1500)
-    return checks("asan", 8, 60000) + checks("tsan", 8, 40000)
+    return checks("asan", 8, 40000) + checks("tsan", 8, 25000)
 
 
 SPECS["C17"] = {
